@@ -129,10 +129,10 @@ Definition exprs_ok (wl : list name) (es : exprs) : Prop :=
   (forall o, ok wl (eval_l es o)) /\ (forall o, ok wl (eval_chain es o)) /\
   (forall k, (forall o, ok wl (k o)) -> forall o, ok wl (eval_ifs es k o)).
 
-Lemma ho_calls_nil : forall f args kws,
-  call_ok f args kws = true -> ho_calls f args kws = [].
+Lemma ho_calls_nil : forall f args kws o,
+  call_ok f args kws = true -> ho_calls f args kws o = ([], o).
 Proof.
-  intros f args kws H. destruct f; try reflexivity. cbn [call_ok] in H. cbn [ho_calls].
+  intros f args kws o H. destruct f; try reflexivity. cbn [call_ok] in H. cbn [ho_calls].
   apply andb_true_iff in H. destruct H as [_ H]. apply orb_true_iff in H. destruct H as [H | H].
   - apply negb_true_iff in H. rewrite H. reflexivity.
   - unfold no_bare in H. destruct (bare_names args ++ bare_names kws); [| discriminate].
@@ -212,7 +212,7 @@ Proof.
       - reflexivity.
       - cbn [call_ok] in Hcall. destruct f; try discriminate. reflexivity. }
     cbn [eval]. bind (Hf o). bind (Tl o0). bind (Tl0 o1).
-    rewrite (ho_calls_nil f args kws Hcall). pose proof (callee_benign f args kws wl Hcall Hnames) as Bc.
+    rewrite (ho_calls_nil f args kws _ Hcall). pose proof (callee_benign f args kws wl Hcall Hnames) as Bc.
     finish. rewrite Bc. reflexivity.
   - (* EStarred *) intros e IH P wl H o. cbn [plain hse eval] in *. exact (IH P wl H o).
   - (* EComp *) intros elt IHe gs IHg P wl H o. cbn [plain hse eval] in *. split_hyps.
@@ -412,7 +412,7 @@ Theorem hse_refuted_higher_order :
                  all_benign wl (fst (eval e o)) = false.
 Proof.
   exists (ECall (EName "list") (ECons (ECall (EName "map") (ECons (EName "print") (ECons (EName "xs") ENil)) ENil) ENil) ENil),
-         ["list"; "map"], [].
+         ["list"; "map"], [1].
   split; [vm_compute; reflexivity |]. split; [| vm_compute; reflexivity].
   intros x H. unfold mem in H. cbn [existsb] in H.
   destruct (String.eqb_spec x "list"); [subst; reflexivity |].
